@@ -14,7 +14,7 @@ class SealKeys(Stream):
     timeout = 1500
     rule = ("seeded histories of init / put / get / list / delete / rotate / rotate-root-key / set-root-key / seal / "
             "unseal(correct | wrong | truncated | over-long key) / reload-keyring / reload-root-key / create- / check- / "
-            "destroy-upgrade / verify-root / key-info on an active barrier and on a standby barrier over the same "
+            "destroy-upgrade / verify-root / key-info / bookkeeping tick (CheckBarrierAutoRotate: persist, no-op, over-limit, faulted) / SetRotationConfig on an active barrier and on a standby barrier over the same "
             "store (root and namespace metaPrefix); `dump` compares the whole in-memory and physical key hierarchy "
             "(which named key opens which record, established by an independent GCM open); after put / rotate / "
             "rotate-root every crash prefix of the operation's physical writes is replayed on a fresh barrier with "
@@ -58,7 +58,7 @@ class SealCore(Stream):
                          "internal/zzverif/vh/vh.go": "vh/vh.go"}}
     testname = "TestVerifC10Core"
     timeout = 900
-    rule = ("real Core with the default Shamir seal (3 shares, threshold 3) or, every fourth case, the test auto-unseal (stored-key) seal: seeded histories of put / delete / key "
+    rule = ("real Core with the default Shamir seal (3 shares, threshold 3) or, every fourth case, the test auto-unseal (stored-key) seal: seeded histories of put / delete / bookkeeping tick / key "
             "rotation / rekey(shares, threshold) through RekeyInit+RekeyUpdate, through RekeyInit+RekeyUpdate+RekeyVerify (verification required) and through SealManager.InitRotation+UpdateRotation / keyless root-key rotation / seal / "
             "unseal with the previous or the current share set; the physical layer snapshots the store after every "
             "write of the operation and for EVERY crash prefix a new core is started on the copy and unsealed with the "
